@@ -231,6 +231,8 @@ pub struct Model<'a> {
     pub wrap: bool,
     /// ... together with its slice (mirrors `mk::Opts::slice`)
     pub wrap_slice: bool,
+    /// ... and an observation of inspector state + context at its end (mirrors `mk::Opts::obs`)
+    pub wrap_obs: bool,
     /// position of the most recent failure event
     last_fail_pos: usize,
 }
@@ -263,6 +265,10 @@ pub fn run_opts(g: &G, w: &[char], st0: St, budget: u64, wrap: bool) -> Outcome 
 }
 
 pub fn run_opts2(g: &G, w: &[char], st0: St, budget: u64, wrap: bool, wrap_slice: bool) -> Outcome {
+    run_opts3(g, w, st0, budget, wrap, wrap_slice, false)
+}
+
+pub fn run_opts3(g: &G, w: &[char], st0: St, budget: u64, wrap: bool, wrap_slice: bool, wrap_obs: bool) -> Outcome {
     let mut m = Model {
         w,
         pend: None,
@@ -276,6 +282,7 @@ pub fn run_opts2(g: &G, w: &[char], st0: St, budget: u64, wrap: bool, wrap_slice
         recovered: 0,
         wrap,
         wrap_slice,
+        wrap_obs,
         last_fail_pos: 0,
     };
     // SAFETY of lifetimes: `g` outlives the model; transmute-free by re-borrowing
@@ -372,11 +379,11 @@ impl<'a> Model<'a> {
         let r = self.ev_inner(g, p, st, cx);
         self.depth -= 1;
         match r {
-            R::Ok { v, end, st, em } if self.wrap && self.wrap_slice => {
-                let sl = Val::Slice { s: self.w[p..end].iter().collect(), off: p };
-                R::Ok { v: Val::node(g.id, p, end, Val::pair(sl, v)), end, st, em }
+            R::Ok { v, end, st, em } if self.wrap => {
+                let v = if self.wrap_obs { Val::pair(Val::Obs { id: g.id, n: st.n, h: st.h, ctx: Box::new(cx.clone()) }, v) } else { v };
+                let v = if self.wrap_slice { Val::pair(Val::Slice { s: self.w[p..end].iter().collect(), off: p }, v) } else { v };
+                R::Ok { v: Val::node(g.id, p, end, v), end, st, em }
             }
-            R::Ok { v, end, st, em } if self.wrap => R::Ok { v: Val::node(g.id, p, end, v), end, st, em },
             r => r,
         }
     }
@@ -387,9 +394,9 @@ impl<'a> Model<'a> {
 
     /// Items of a repetition-like node (`Rep`, `Sep`, `CtxRep`): `Some((items, end, st, em))` or `None` on failure.
     /// `limit` = additional cap on the number of items requested by the consumer (`collect_exactly`).
-    fn ev_iter(&mut self, g: &'a G, p: usize, st: St, cx: &Val, limit: Option<usize>) -> Option<(Vec<(Val, usize, usize, usize)>, usize, St, Vec<MEmit>, bool)> {
+    fn ev_iter(&mut self, g: &'a G, p: usize, st: St, cx: &Val, limit: Option<usize>) -> Option<(Vec<(Val, usize, usize, usize, St)>, usize, St, Vec<MEmit>, bool)> {
         // returns (items with their start positions, end, state, emissions, stopped_by_bound)
-        let mut items: Vec<(Val, usize, usize, usize)> = vec![];
+        let mut items: Vec<(Val, usize, usize, usize, St)> = vec![];
         let mut em: Vec<MEmit> = vec![];
         let mut q = p;
         let mut s = st;
@@ -422,7 +429,7 @@ impl<'a> Model<'a> {
                                 self.over = true;
                                 return None;
                             }
-                            items.push((v, q, end, q));
+                            items.push((v, q, end, q, st));
                             q = end;
                             s = st;
                             em.extend(e);
@@ -501,7 +508,7 @@ impl<'a> Model<'a> {
                             }
                             em.extend(sep_em);
                             em.extend(e);
-                            items.push((v, after_sep.0, end, before_sep.0));
+                            items.push((v, after_sep.0, end, before_sep.0, st));
                             q = end;
                             s = st;
                         }
@@ -576,6 +583,11 @@ impl<'a> Model<'a> {
                 };
                 if accept {
                     let c = t.unwrap();
+                    if g.op == Select && self.wrap_obs {
+                        // the select closure runs after the token has been taken
+                        let s2 = st.feed(c);
+                        return Self::ok(Val::pair(Val::Obs { id: g.id, n: s2.n, h: s2.h, ctx: Box::new(cx.clone()) }, Val::Tok(c)), p + 1, s2);
+                    }
                     Self::ok(Val::Tok(c), p + 1, st.feed(c))
                 } else {
                     let exp: Vec<Exp> = match g.op {
@@ -857,10 +869,10 @@ impl<'a> Model<'a> {
                         let flav = if g.op == CtxRep { Flav::Vec } else { g.p.flav };
                         let v = match flav {
                             Flav::Unit => Val::Unit,
-                            Flav::Vec | Flav::Arr2 | Flav::Arr3 => Val::Seq(items.into_iter().map(|(v, _, _, _)| v).collect()),
-                            Flav::Str => Val::Str(items.iter().map(|(v, _, _, _)| v.first_char()).collect()),
+                            Flav::Vec | Flav::Arr2 | Flav::Arr3 => Val::Seq(items.into_iter().map(|(v, _, _, _, _)| v).collect()),
+                            Flav::Str => Val::Str(items.iter().map(|(v, _, _, _, _)| v.first_char()).collect()),
                             Flav::Count | Flav::CountM => Val::Num(items.len() as i64),
-                            Flav::Enum => Val::Seq(items.into_iter().enumerate().map(|(i, (v, _, _, _))| Val::pair(Val::Num(i as i64), v)).collect()),
+                            Flav::Enum => Val::Seq(items.into_iter().enumerate().map(|(i, (v, _, _, _, _))| Val::pair(Val::Num(i as i64), v)).collect()),
                         };
                         R::Ok { v, end, st, em }
                     }
@@ -880,8 +892,9 @@ impl<'a> Model<'a> {
                     }
                     Some((items, end, st, e, _)) => {
                         em.extend(e);
-                        for (x, _, item_end, _) in items.into_iter() {
+                        for (x, _, item_end, _, st_item) in items.into_iter() {
                             acc = if g.p.ok {
+                                let acc = if self.wrap_obs { Val::pair(Val::Obs { id: g.id, n: st_item.n, h: st_item.h, ctx: Box::new(cx.clone()) }, acc) } else { acc };
                                 Val::FoldW { lo: p, lo2: p, hi: item_end, acc: Box::new(acc), x: Box::new(x) }
                             } else {
                                 Val::pair(acc, x)
@@ -900,8 +913,10 @@ impl<'a> Model<'a> {
                     R::Ok { v, end, st, em: e } => {
                         em.extend(e);
                         let mut acc = v;
-                        for (x, start, _, step_start) in items.into_iter().rev() {
+                        for (x, start, _, step_start, _) in items.into_iter().rev() {
                             acc = if g.p.ok {
+                                // foldr callbacks run after everything has been parsed: they see the final state
+                                let acc = if self.wrap_obs { Val::pair(Val::Obs { id: g.id, n: st.n, h: st.h, ctx: Box::new(cx.clone()) }, acc) } else { acc };
                                 // the callback's span starts where the step that produced the item started
                                 // (before its separator); the item's own start is accepted as well
                                 Val::FoldW { lo: step_start, lo2: start, hi: end, acc: Box::new(acc), x: Box::new(x) }
